@@ -25,6 +25,21 @@ Theorem C14_strict : forall cur ups ok e n0 n,
 Proof. exact strict. Qed.
 Print Assumptions C14_strict.
 
+(* the same across ClusterInfo.Sync calls: the hypothesis is "no server added or removed and no disabled
+   flag changed in the window", NOT "no Sync in the window" — a Sync of an identical object, or one that only
+   edits flow control / logging / other policies, keeps every cursor (syncEndpoints resets the
+   loadbalancer map only when a server is added or deleted) *)
+Theorem C14_strict_sync : forall s ups ops e,
+  let rd := filter (is_ok s) ups in
+  let k := Z.of_nat (List.length rd) in
+  let N := Z.of_nat (npicks ops) in
+  2 <= k -> NoDup rd -> In e rd ->
+  0 <= get (curs s) rd -> get (curs s) rd + N < two64 ->
+  Forall (window_op s ups) ops ->
+  N / k <= pcount e (pickres ops (crun s ops)) <= ceil_div N k.
+Proof. exact strict_sync. Qed.
+Print Assumptions C14_strict_sync.
+
 (* any number of concurrent pickers, any schedule of their two shared accesses (the atomic get-or-create
    of the counter, then the atomic add): the picks in the order of their atomic adds are the
    sequential round-robin sequence, the goroutines' picks partition it, and after T picks every
@@ -102,3 +117,20 @@ Example C14_concurrent_nonvacuous :
   let st := run (pstep 3) (pinit 0 [2; 2]%nat) [0; 1; 1; 0; 0; 0; 1; 1]%nat in
   rev (plog (fst st)) = [1; 2; 0; 1] /\ map (fun t => rev (got t)) (snd st) = [[2; 0]; [1; 1]].
 Proof. vm_compute. split; reflexivity. Qed.
+
+(* 3 ready endpoints in the subset, server 3 disabled outside it; {pick, pick, Sync(same object)} x 3:
+   the Syncs are window ops and the picks keep rotating 1, 2, 0, 1, 2, 0 *)
+Example C14_strict_sync_nonvacuous :
+  let s := {| servers := [0; 1; 2; 3]; readyset := [0; 1; 2; 3]; disabled := [3]; curs := [] |} in
+  let sy := OServers [3; 2; 1; 0] [3] in
+  let ops := [OPick [0; 1; 2]; OPick [0; 1; 2]; sy; OPick [0; 1; 2]; OPick [0; 1; 2]; sy;
+              OPick [0; 1; 2]; OPick [0; 1; 2]; sy] in
+  Forall (window_op s [0; 1; 2]) ops /\
+  map pres_code (pickres ops (crun s ops)) = [1; 2; 0; 1; 2; 0].
+Proof.
+  intros s sy ops. split; [|vm_compute; reflexivity].
+  assert (P : window_op s [0; 1; 2] (OPick [0; 1; 2])) by (left; reflexivity).
+  assert (Q : window_op s [0; 1; 2] sy).
+  { right. exists [3; 2; 1; 0], [3]. split; [reflexivity|]. split; [reflexivity|]. intros e; reflexivity. }
+  unfold ops. repeat (apply Forall_cons; [first [exact P | exact Q]|]). apply Forall_nil.
+Qed.
